@@ -8,7 +8,7 @@ THEOREMS = ['DomProto.dom_spec', 'C12.minTime_mem', 'C12.pushOnce_spec', 'C12.lo
 PARTIAL = ['C12_ph_partial: that removing / delaying dominated edges preserves the persistence diagram of the flag filtration in every dimension is the theorem of Glisse and Pritam; it is not proved in Lean. '
            'On every run it is evaluated exactly on every explored graph: the flag filtrations of the input and of the returned edges are expanded to the clique number and their diagrams over Z2 and Z3 are compared',
            'C12_sort_partial: the public function sorts with an unstable sort; the model of process_edges is compared on explicit edge orders (every order by non-increasing value), the public function through the oracle only']
-ASSUMPTIONS = ['integer weights; vertices of the flag filtration enter at -infinity (their values are irrelevant to the function, as documented)', 'graphs on at most 8 vertices so that the full flag complex can be expanded']
+ASSUMPTIONS = ['integer weights; vertices of the flag filtration enter at -infinity (their values are irrelevant to the function, as documented)', 'graphs on at most 9 vertices so that the full flag complex can be expanded']
 
 
 def parse_edges(tok):
@@ -81,7 +81,7 @@ def canon(lines): return ['col' if l.startswith('col') else l for l in lines]
 
 def gen_graph(rng, maxn=7):
     n = rng.randrange(3, maxn + 1)
-    p = rng.choice([0.4, 0.7, 1.0]); wmax = rng.choice([1, 2, 3, 5, 8])
+    p = rng.choice([0.4, 0.6, 0.7, 0.85, 1.0]); wmax = rng.choice([1, 2, 3, 3, 4, 5, 8])
     labels = list(range(n))
     if rng.random() < 0.5: rng.shuffle(labels)           # vertex numbering is irrelevant to the property
     edges = []
@@ -120,7 +120,7 @@ def exhaustive(nv, weights):
 
 def run(ctx):
     thorough = ctx.tier == 'thorough'
-    ctx.rule = ('random weighted graphs on 3-7 vertices (8 in the thorough tier), edge density 0.4 / 0.7 / 1.0, weights with many ties, permuted vertex numbering and edge orientation; each graph processed in 1-3 random orders '
+    ctx.rule = ('random weighted graphs on 3-9 vertices, edge density 0.4 / 0.7 / 1.0, weights with many ties, permuted vertex numbering and edge orientation; each graph processed in 1-3 random orders '
                 'compatible with non-increasing values (model of process_edges compared edge for edge) and once through the public function; builds with and without GUDHI_COLLAPSE_USE_DENSE_ARRAY and with TBB sorting; '
                 'exhaustive graphs on 4 vertices with weights {1,2}; oracle: edges subset of the input, values not lowered, flag persistence diagrams over Z2 and Z3 in every dimension equal; non-trivial = the collapse removes or delays at least one edge')
     vlib.lean_stage(ctx, MODULE, THEOREMS)
@@ -138,7 +138,7 @@ def run(ctx):
         return True
     for name in ('hC12', 'hC12_dense', 'hC12_tbb') + (('hC12_san',) if thorough else ()):
         if not exes.get(name): ctx.notes.append(name + ' not built: ' + errs.get(name, '')[-200:]); continue
-        cases = [gen_case(ctx.rng, 8 if thorough and i % 5 == 0 else 7) for i in range(n if name != 'hC12_san' else 200)]
+        cases = [gen_case(ctx.rng, 9 if i % 3 == 0 else 7) for i in range(2 * n if name != 'hC12_san' else 200)]
         vlib.correspondence(ctx, {'hC12': 'sparse_map', 'hC12_dense': 'dense_array', 'hC12_tbb': 'tbb_sort', 'hC12_san': 'asan_ubsan'}[name], [exes[name]], drv, cases, keep_prefix=0, canon=canon, oracle=oracle, valid=valid)
     vlib.correspondence(ctx, 'exhaustive_4_vertices', [exes['hC12']], drv, exhaustive(4, (1, 2)), keep_prefix=0, canon=canon, oracle=oracle, valid=valid)
     if thorough:
